@@ -92,7 +92,13 @@ def build_mode(shape, variant, H, name):
             src = src.replace("class Parent(Base):\n    pass\n", "class Parent(Base):\n" + fdef) if "    pass\n" in src else src.replace("class M(Parent):", fdef + "class M(Parent):")
         else:
             src += fdef
-    exec(compile(src, f"<mode {shape}>", "exec"), ns)
+    # a sibling mode class using the same state names (modes of one robot often do): nothing is shared between classes
+    sib = f"class Sib(Base):\n    MODE_NAME = {name + '_sibling'!r}\n"
+    for i, (sn, dur, nxt, first) in enumerate(SHAPES[shape]):
+        deco = ("@state(first=True)" if first else "@state") if dur is None else f"@timed_state(duration={(dur or 0) + 3!r}, next_state={nxt!r}, first={first!r})"
+        sib += f"    {deco}\n    def {FNAMES.get(shape, {}).get(sn, sn) if False else sn}(self, tm, state_tm, initial_call):\n        H.foreign.append(({sn!r}, type(self).__name__))\n"
+    exec(compile(src + sib, f"<mode {shape}>", "exec"), ns)
+    ns["M"].Sib = ns["Sib"]
     return ns["M"]
 
 
@@ -118,8 +124,16 @@ def run(c, job):
     name = f"M{_ID[0]}" if not world.is_sym() else "M"
     H = Rec(c, cfg, shape)
     M = build_mode(shape, job.get("variant", 0), H, name)
+    H.foreign = []
+    sib_when = c.choose("sibling_mode", 3) if cfg.get("sibling") else 0  # none / built before / built after the mode under test
     try:
+        if sib_when == 1:
+            M.Sib()
         mode = M()
+        if sib_when == 2:
+            M.Sib()
+        if sib_when:
+            c.reach("sibling-mode")
     except Exception as e:
         c.prove("C15.build legal-mode-definition-constructs", False, info=dict(shape=shape, exc=repr(e)[:160]))
         H.meta, H.periods = {}, []
@@ -152,6 +166,12 @@ def run(c, job):
                 c.assume(d > 0)
                 tm = tm + d
             H.iters.append(dict(period=p, tm=tm, calls=[], raised=None))
+            if cfg.get("edit_mid") and i == 1:
+                # the dashboard values are edited while the period is running: they count from the next on_enable() on
+                for sn, m in meta.items():
+                    if m["dur"] is not None and c.choose(f"mid{p}_{sn}", 2):
+                        table.putNumber(f"{name}\\{FNAMES.get(shape, {}).get(sn, sn)}_duration", c.real(f"middur{p}_{sn}", 0, 100))
+                        c.reach("dashboard-edit-inside-period")
             try:
                 mode.on_iteration(tm)
             except Exception as e:
@@ -260,8 +280,8 @@ def _after(meta, durs, x0, tm, s=None, d="fresh"):
     return dict(state=x0.name, entered=True, s=s, d=d)
 
 
-def mkjob(shape, K, budget, periods=1, variant=0, K_later=None):
-    return dict(shape=shape, variant=variant, cfg=dict(K=K, act_budget=budget, periods=periods, K_later=K_later or K))
+def mkjob(shape, K, budget, periods=1, variant=0, K_later=None, sibling=False, edit_mid=False):
+    return dict(shape=shape, variant=variant, cfg=dict(K=K, act_budget=budget, periods=periods, K_later=K_later or K, sibling=sibling, edit_mid=edit_mid))
 
 
 class C15(Spec):
@@ -279,11 +299,13 @@ class C15(Spec):
         if tier == "quick":
             return [mkjob("intdur", 5, 0, variant=1), mkjob("selfloop", 6, 1, variant=2), mkjob("selfloop", 3, 0, periods=2), mkjob("inherit", 5, 1, variant=2), mkjob("inherit", 3, 1, periods=2, variant=3), mkjob("chain", 5, 2), mkjob("loop", 5, 1), mkjob("tchain", 5, 1), mkjob("branch", 4, 2),
                     mkjob("chain", 3, 2, periods=2, variant=1), mkjob("loop", 3, 1, periods=2, variant=2),
-                    mkjob("tchain", 3, 1, periods=2, variant=3), mkjob("aliased", 5, 1, variant=1), mkjob("aliased", 3, 0, periods=2, variant=2)]
+                    mkjob("tchain", 3, 1, periods=2, variant=3), mkjob("aliased", 5, 1, variant=1), mkjob("aliased", 3, 0, periods=2, variant=2),
+                    mkjob("chain", 4, 1, sibling=True, variant=2), mkjob("tchain", 4, 0, sibling=True), mkjob("tchain", 4, 0, edit_mid=True, variant=1), mkjob("loop", 3, 0, periods=2, edit_mid=True)]
         return [mkjob("intdur", 7, 1, variant=1), mkjob("intdur", 4, 1, periods=2), mkjob("selfloop", 8, 2, variant=2), mkjob("selfloop", 4, 1, periods=3),
                 mkjob("inherit", 7, 2, variant=1), mkjob("inherit", 4, 2, periods=3, variant=4), mkjob("chain", 7, 2, variant=1), mkjob("loop", 8, 2, variant=2), mkjob("tchain", 8, 1, variant=3), mkjob("branch", 6, 2, variant=4),
                 mkjob("chain", 4, 2, periods=3, variant=5), mkjob("loop", 4, 2, periods=2, variant=0), mkjob("tchain", 4, 2, periods=3, variant=1),
-                mkjob("branch", 4, 2, periods=2, variant=2), mkjob("aliased", 7, 2, variant=1), mkjob("aliased", 4, 1, periods=3, variant=2)]
+                mkjob("branch", 4, 2, periods=2, variant=2), mkjob("aliased", 7, 2, variant=1), mkjob("aliased", 4, 1, periods=3, variant=2),
+                mkjob("chain", 6, 2, sibling=True, variant=2), mkjob("tchain", 6, 1, sibling=True), mkjob("tchain", 6, 1, edit_mid=True, variant=1), mkjob("loop", 4, 1, periods=2, edit_mid=True)]
 
     def bounds(self, tier):
         return dict(jobs=[dict(shape=j["shape"], **j["cfg"]) for j in self.jobs(tier)], durations="symbolic reals in [0,100] written to the dashboard before every on_enable",
@@ -291,11 +313,13 @@ class C15(Spec):
 
     def reach_required(self, tier):
         return ["period-p1", "period-later", "entered-runs-p1", "entered-runs-later", "timed-stays", "timed-expired-p1", "timed-expired-later",
-                "last-state-expired", "finished-p1", "untimed-continues"]
+                "last-state-expired", "finished-p1", "untimed-continues", "sibling-mode", "dashboard-edit-inside-period"]
 
     def path_fn(self, c, job):
         H = run(c, job)
         clauses(c, H)
+        if job["cfg"].get("sibling"):
+            c.prove("C15.run only-the-mode's-own-states-run", not H.foreign, info=dict(foreign=H.foreign[:4]))
 
     def trigger(self, viol, job):
         info = viol.get("info") or {}
